@@ -60,6 +60,8 @@ var gbReaderFns = []struct {
 		"genbankReferenceParser", "genbankCommentParser", "genbankFeatureParser", "genbankContigParser",
 		"makeGenbankOriginParser"}},
 	{"seqio/insdc.go", []string{
+		"init", "RegisterQuotedQualifier", "RegisterLiteralQualifier", "RegisterToggleQualifier", "searchString",
+		"IsQuotedQualifier", "IsLiteralQualifier", "IsToggleQualifier",
 		"GetQualifierType", "qualifierNameParser", "quotedQualifierParser", "literalQualifierValueParser",
 		"literalQualifierParser", "QualifierParser", "featureKeylineParser", "INSDCTableParser"}},
 	{"seqio/reference.go", []string{"parseReferenceInfo"}},
@@ -115,6 +117,7 @@ func (p *gbPrinter) open(s *gbScope) *gbScope { return &gbScope{parent: s, names
 var gbParamStem = map[string]string{
 	"*pars.State": "state", "*pars.Result": "result", "*GenBank": "gb", "*Reference": "ref", "int": "n", "string": "s",
 	"byte": "b", "interface{}": "q", "[]pars.Parser": "pp", "[]byte": "p", "pars.Position": "pos", "error": "err",
+	"[]string": "ss", "...string": "ss",
 }
 
 func (p *gbPrinter) paramName(sc *gbScope, typ string) string {
